@@ -269,7 +269,7 @@ pub struct Stmt {
 
 const GROUPS: [&str; 5] = ["", "GROUP BY k", "GROUP BY k, g", "GROUP BY upper(k)", "GROUP BY g"];
 const FILTERS: [&str; 3] = ["", "WHERE v IS NOT NULL", "WHERE g = 1"];
-const HAVINGS: [&str; 6] = ["", "HAVING COUNT(*) > 1", "HAVING k IS NOT NULL", "HAVING SUM(v) > 2", "HAVING MAX(v) = 3", "HAVING COUNT(v) = 0"];
+const HAVINGS: [&str; 9] = ["", "HAVING COUNT(*) > 1", "HAVING k IS NOT NULL", "HAVING SUM(v) > 2", "HAVING MAX(v) = 3", "HAVING COUNT(v) = 0", "HAVING COUNT(*) > 1 AND SUM(v) > 2", "HAVING SUM(v) > 2 AND COUNT(*) > 1", "HAVING MAX(v) = 3 OR COUNT(v) = 0"];
 
 fn keys_of(group_by: usize) -> Vec<&'static str> {
     match group_by {
@@ -360,7 +360,17 @@ fn reference(st: &Stmt, input: &[&Row]) -> Option<Vec<RefGroup>> {
                 Cell::Val(RVal::Null) => Some(false),
                 _ => None,
             },
-            _ => Some(nonnull(&grows, "v").is_empty()),
+            5 => Some(nonnull(&grows, "v").is_empty()),
+            6 | 7 => match agg_value(&its[7], &grows) {
+                Cell::Val(RVal::Int(s)) => Some(grows.len() > 1 && s > 2),
+                Cell::Val(RVal::Null) => Some(false),
+                _ => None,
+            },
+            _ => match agg_value(&its[10], &grows) {
+                Cell::Val(RVal::Int(m)) => Some(m == 3 || nonnull(&grows, "v").is_empty()),
+                Cell::Val(RVal::Null) => Some(nonnull(&grows, "v").is_empty()),
+                _ => None,
+            },
         };
         let keep = keep?;
         if !keep {
@@ -384,7 +394,7 @@ fn reference(st: &Stmt, input: &[&Row]) -> Option<Vec<RefGroup>> {
         }
         // HAVING aggregates also create entries
         let having_entry = match st.having {
-            1 => true,                                 // COUNT(*)
+            1 | 6 | 7 | 8 => true,                     // COUNT(*) / SUM / MAX are present
             3 | 4 => true,                             // SUM / MAX create NULL entries
             5 => !nonnull(&grows, "v").is_empty(),     // COUNT(v)
             _ => false,
@@ -479,6 +489,35 @@ fn judge(tables: &Tables, st: &Stmt, seq: &[u8]) -> (Vec<Failure>, bool, u64) {
             }
         }
     }
+    // incremental driver (follow mode: update + result after every line on ONE engine): every shown table must equal the
+    // reference over the prefix consumed so far (checked for short select lists to bound the cost)
+    if out.is_empty() && st.items.len() <= 2 && !any_open && seq.len() >= 2 {
+        if let Outcome::Ok(steps) = sut::run_incremental(tables, &parsed, &ls) {
+            for (kq, step) in steps.iter().enumerate() {
+                if let Some(t) = &step.table {
+                    let pref: Vec<&Row> = input[..=kq].to_vec();
+                    if let Some(pg) = reference(st, &pref) {
+                        if pg.iter().any(|g| g.entryless_all_null) || pg.iter().any(|g| g.cells.iter().any(|c| matches!(c, Cell::Open))) {
+                            continue;
+                        }
+                        let exp: Vec<Vec<RVal>> = pg.iter().map(|g| g.cells.iter().map(|c| if let Cell::Val(v) = c { v.clone() } else { RVal::Null }).collect()).collect();
+                        if !sut::rows_close(&t.rows, &exp) {
+                            let kinds: Vec<&str> = st.items.iter().map(|i| its[*i].kind).filter(|k| *k != "key").collect();
+                            out.push(fail(
+                                format!("incremental-table-wrong:{}", kinds.join("+")),
+                                format!("`{}` fed line by line {:?}: table shown after line {} differs from the reference over that prefix", text, seq, kq + 1),
+                                json!({"items": st.items, "group_by": st.group_by, "filter": st.filter, "having": st.having, "seq": seq, "statement": text, "driver": "incremental", "k": kq + 1}),
+                                rows_json(&exp),
+                                t.to_json(),
+                                rank,
+                            ));
+                            break;
+                        }
+                    }
+                }
+            }
+        }
+    }
     (out, nontrivial, okey)
 }
 
@@ -490,7 +529,7 @@ fn statements(thorough: bool) -> Vec<Stmt> {
         for g in 0..GROUPS.len() {
             for f in 0..FILTERS.len() {
                 for h in 0..HAVINGS.len() {
-                    if thorough || (f == 0 && h <= 1) || (h == 0) || (g == 1 && f == 0) {
+                    if thorough || (f == 0 && h <= 1) || (h == 0) || (g == 1 && f == 0) || (g == 0 && f == 0 && h >= 6) {
                         v.push((g, f, h));
                     }
                 }
